@@ -411,9 +411,14 @@ class Gen:
         self.n = 0
         self.bad = 0.0      # chance that the next value token is one the Literal-typed fields of the history reject
         self.good = []      # the accepted tokens issued for the current history
+        self.empty = 0.0    # chance that the next value is the EMPTY string: a variable that is present but empty is present
+        self.p_explicit = 0.3           # chance that a field is explicitly mapped (env_field / json_field / Meta.field_to_env_var)
+        self.explicit_k = [1, 1, 2, 3]  # how many variables an explicit mapping names
 
     def tok(self, tag):
         self.n += 1
+        if self.empty and self.rng.random() < self.empty:
+            return ''
         if self.bad and self.rng.random() < self.bad:
             return f'BAD{self.n}'
         t = f'{tag}{self.n}'
@@ -436,10 +441,13 @@ class Gen:
                 out.append([k, self.tok(tag)])
         return out
 
-    def history(self, max_ops):
+    def history(self, max_ops, empty=None):
         rng = self.rng
         typed = rng.random() < 0.3           # some fields are Literal-typed and some values are rejected by them
         self.bad, self.good = (0.12 if typed else 0.0), []
+        if empty is None:
+            empty = rng.choice([0.0, 0.0, 0.08, 0.2])      # half of the histories hold some present-but-empty variables
+        self.empty = empty
         stems = rng.sample(STEMS, rng.choice([1, 2, 2, 3]))
         ncls = rng.choice([1, 1, 2, 3])
         classes, pool = [], []
@@ -463,8 +471,8 @@ class Gen:
                 f = {'name': name, 'dflt': rng.random() < 0.6}
                 if typed and rng.random() < 0.5:
                     f['typ'] = 'lit'
-                if rng.random() < 0.3:
-                    k = rng.choice([1, 1, 2, 3])
+                if rng.random() < self.p_explicit:
+                    k = rng.choice(self.explicit_k)
                     cands = custom + spellings(rng.choice(stems))[:6]
                     f['explicit'] = rng.sample(cands, k)
                     f['via'] = rng.choice(['env_field', 'json_field', 'meta'])
@@ -574,8 +582,20 @@ class Gen:
             case['maps'] = maps
         if typed:
             case['lit'] = list(self.good) or ['g0']
-        self.bad = 0.0
+        self.bad = self.empty = 0.0
         return case
+
+    def mapped(self, max_ops):
+        """the explicit-mapping family: most fields are mapped to 1-3 variables (env_field / json_field keys, Meta.field_to_env_var
+        strings and tuples; with and without prefix, with and without default), and the variables - in os.environ, dotenv
+        files (`KEY=`) and secrets files (an empty file) - are PRESENT BUT EMPTY about as often as they hold a value.  The
+        statement's "first present wins" counts an empty value as present: it wins over a later mapped variable, over
+        the default, and is no MissingVars."""
+        self.p_explicit, self.explicit_k = 0.8, [1, 2, 2, 3]
+        try:
+            return self.history(max_ops, empty=self.rng.choice([0.3, 0.45, 0.6]))
+        finally:
+            self.p_explicit, self.explicit_k = 0.3, [1, 1, 2, 3]
 
     def recovery(self, max_rounds):
         """failure, then recovery.  An instantiation fails — a value its field's type rejects (ParseError), a required field
@@ -928,6 +948,15 @@ def evaluate(ctx, i, case, res, quirks, reqs, pend):
     pend.append((case, outs))
 
 
+def _pick_family(g, rng, max_ops):
+    x = rng.random()
+    if x < 0.15:
+        return g.recovery(3)
+    if x < 0.33:
+        return g.mapped(max_ops)
+    return g.history(max_ops)
+
+
 def run(ctx: C.Ctx):
     rng = ctx.rng
     ctx.rule = ('directed shapes, an exhaustive small scope (notes.small_scope), then random histories of ≤ 12 (quick) / ≤ 16 operations — os.environ set/delete, Env.reload(), instantiations of 1-3 generated '
@@ -983,7 +1012,7 @@ def run(ctx: C.Ctx):
         if ctx.done(i) or (i >= ndirected and ctx.only is None and time.time() - ctx.t0 > budget):
             ctx.notes['stopped_at'] = i
             break
-        case = cases[i] if i < ndirected else (g.recovery(3) if rng.random() < 0.15 else g.history(max_ops))
+        case = cases[i] if i < ndirected else _pick_family(g, rng, max_ops)
         if not ctx.begin_case(i):
             continue
         batch.append(case)
